@@ -443,6 +443,20 @@ macro_rules! long_folds {
                     let sr: $T = list.iter().sum();
                     same!(fold, sv, concat!($sig, "-sum-values"), "{} Sum over {} values", stringify!($T), len);
                     same!(fold, sr, concat!($sig, "-sum-refs"), "{} Sum over {} references", stringify!($T), len);
+                    // the same items from iterators that do not know their length (size_hint lower bound 0), that only know
+                    // an upper bound, or that are chained from two parts
+                    let f1: $T = list.iter().cloned().filter(|_| true).sum();
+                    let f2: $T = list.iter().filter(|_| true).sum();
+                    let mut k = 0usize;
+                    let f3: $T = std::iter::from_fn(|| { k += 1; list.get(k - 1).cloned() }).sum();
+                    let half = len / 2;
+                    let f4: $T = list[..half].iter().chain(list[half..].iter()).sum();
+                    let f5: $T = list.iter().cloned().take_while(|_| true).sum();
+                    same!(fold, f1, concat!($sig, "-sum-unsized-values"), "{} Sum over a filtered iterator of {} values", stringify!($T), len);
+                    same!(fold, f2, concat!($sig, "-sum-unsized-refs"), "{} Sum over a filtered iterator of {} references", stringify!($T), len);
+                    same!(fold, f3, concat!($sig, "-sum-from_fn"), "{} Sum over a from_fn iterator of {} values", stringify!($T), len);
+                    same!(fold, f4, concat!($sig, "-sum-chained"), "{} Sum over two chained slices of {} references", stringify!($T), len);
+                    same!(fold, f5, concat!($sig, "-sum-take_while"), "{} Sum over a take_while iterator of {} values", stringify!($T), len);
                 }};
             }
             sums!(Vector1<F>, |j| Vector1::new(el(j, 0)), "long-vector1");
@@ -468,6 +482,16 @@ macro_rules! long_folds {
                     let pr: $T = list.iter().product();
                     same!(fold, pv, concat!($sig, "-product-values"), "{} Product over {} values", stringify!($T), len);
                     same!(fold, pr, concat!($sig, "-product-refs"), "{} Product over {} references", stringify!($T), len);
+                    let f1: $T = list.iter().cloned().filter(|_| true).product();
+                    let f2: $T = list.iter().filter(|_| true).product();
+                    let mut k = 0usize;
+                    let f3: $T = std::iter::from_fn(|| { k += 1; list.get(k - 1).cloned() }).product();
+                    let half = len / 2;
+                    let f4: $T = list[..half].iter().chain(list[half..].iter()).product();
+                    same!(fold, f1, concat!($sig, "-product-unsized-values"), "{} Product over a filtered iterator of {} values", stringify!($T), len);
+                    same!(fold, f2, concat!($sig, "-product-unsized-refs"), "{} Product over a filtered iterator of {} references", stringify!($T), len);
+                    same!(fold, f3, concat!($sig, "-product-from_fn"), "{} Product over a from_fn iterator of {} values", stringify!($T), len);
+                    same!(fold, f4, concat!($sig, "-product-chained"), "{} Product over two chained slices of {} references", stringify!($T), len);
                 }};
             }
             let ang = |j: usize| Rad(angs[j % nb] * [1.0 as F, -0.5, 0.25][(j / nb) % 3]);
